@@ -38,7 +38,7 @@ class C09:
                'oracles (not modelled, evaluated by calling the library / its dependency on the same data): uts.gradient.cfd/csd, uts.thresholding.isodata, '
                'menger.menger_curvature, lmethod.compute_error; the curvature criterion |f\'\'|/(1+f\'^2)^1.5 is evaluated in NumPy by the harness on the uts outputs',
                'loop traces of the implementation are observed through pass-through wrappers on dfdt.get_knee_gradient and lmethod.get_knee (no source hook)']
-    timeout = 4.0
+    timeout = 6.0
     shard = 250
 
     # ------------------------------------------------------------------ generation
@@ -56,6 +56,11 @@ class C09:
             else:
                 n = rng.randint(3, min(nmax, 12))
             fam, pts = gen.curve(rng, n) if rng.random() < 0.85 else gen.mrc_curve(rng, n)
+            if rng.random() < 0.08:
+                # overflow stratum: still a valid curve (finite, increasing x, y >= 0) but the criteria reach inf / NaN
+                e = rng.choice([155, 200, 300])
+                sx = rng.choice([1.0, 1e-8, 1e8])
+                fam, pts = 'extreme', [[x * sx, min(y * 10.0 ** e, 1e308)] for x, y in pts]
             base = {'points': pts, 'family': fam}
             for kind in ('curv', 'dfdtg', 'dfdt', 'menger'):
                 cases.append(dict(base, kind=kind))
@@ -90,7 +95,7 @@ class C09:
         import kneeliverse.curvature, kneeliverse.dfdt, kneeliverse.menger
         p = np.array([[0., 1.], [1., 3.], [2., 2.], [3., 5.], [4., 5.5], [5., 9.]])
         for f in lm.Fit:
-            lm.knee(p, f)
+            call(lm.knee, p, f)       # exceptions of a broken tree must surface as case outcomes, not here
 
     # ------------------------------------------------------------------ oracle tables (the library's own primitives)
     def _tables(self, c, touched=None):
@@ -169,6 +174,7 @@ class C09:
         kind = c['kind']
         trace = []
         touched = None
+        seen = []          # oracle keys the implementation touched (recorded before the call: it may raise)
         if kind == 'curv':
             st, out = call(curvature.knee, pts)
         elif kind == 'dfdtg':
@@ -177,6 +183,7 @@ class C09:
             orig = dfdt.get_knee_gradient
 
             def w(g):
+                seen.append(n - len(g))
                 r = orig(g)
                 trace.append((n - len(g), as_nat(r)))
                 return r
@@ -185,7 +192,7 @@ class C09:
                 st, out = call(dfdt.knee, pts)
             finally:
                 dfdt.get_knee_gradient = orig
-            touched = [cc for cc, _ in trace]
+            touched = list(seen)
             c['ks'] = [(r + cc) if r is not None else None for cc, r in trace]
         elif kind == 'menger':
             st, out = call(menger.knee, pts)
@@ -200,6 +207,7 @@ class C09:
             orig = lm.get_knee
 
             def w(xx, yy, *a, **k):
+                seen.append(len(xx))
                 r = orig(xx, yy, *a, **k)
                 trace.append((len(xx), as_nat(r[0])))
                 return r
@@ -208,7 +216,7 @@ class C09:
                 st, out = call(lm.knee, pts, lm.Fit[c['fit']], lm.Refinement[c['it']], c['limit'])
             finally:
                 lm.get_knee = orig
-            touched = [m for m, _ in trace]
+            touched = list(seen)
             c['ks'] = [r for _, r in trace]
         if st == 'ok':
             k = as_nat(out)
